@@ -289,6 +289,9 @@ def run_short(spec, rec):
 HOSTILE = ['1' * 29 + '.5', '123456789012345678901234567890.5', '-' + '9' * 40, '0.' + '1' * 35, '1234567.8', '0.000001234567',
            '-1234567890123456', '123456789012345.6', '-123456789012345.6', '1234567890123456', '12345678901234567',
            '-123456789012345', '99999', '100000', '12345',
+           # a line feed / blank glued to an otherwise valid value is part of the text: no member, kept verbatim by TOLERANT
+           '1230+0100\n', '20200101120000+0100\n', '20200101-0500\n', '1230\n', '2020\n', '12\n', '1\n', '1\r', '\n1',
+           '1230+0100\r', '1230+0100 ', '12\t', '1230+0100\x0b', '20200101\x0c', '1\x1c', '12\x85', '1\u2028',
            'not a number ' * 20, 'x' * 1100, '2020' + 'y' * 300, '12' + ' ' * 250 + '3', '1' * 250, '9' * 1000]
 
 
